@@ -19,7 +19,8 @@ RULE = ('generated tagged BAMs (1-3 contigs, 1-4 cells, read-1/read-2/single-end
         'threshold, mp tag unique/bad/absent, DS up to D bases away from the read, allele tag DA, proper and non-proper pairs) with sites on '
         'job boundaries -1/0/+1; obtain_counts(generate_commands) for bins_per_job in 1..N and 1..8 threads (pool completion order is '
         'whatever the pool produces), key_tags None / [DA]; get_binned_counts with 1..4 processes. Non-trivial = BAM with a counted site '
-        'within 1 bp of a job boundary of the split; distinct = distinct (BAM seed, bin size, bins_per_job, threads, key tags).')
+        'within 1 bp of a job boundary of the split; distinct = distinct (BAM seed, bin size, bins_per_job, threads, key tags).'
+        ' Plus sites as far from the read as the fetch margin allows with read order differing from site order at the end of a fetch window, and ignore_mp=True runs.')
 ASSUMPTIONS = ['max_fragment_size >= distance between a read and its DS site (the fetch margin must cover it)',
                'get_binned_counts applies its documented default filter (read 1, not duplicate, not qc-fail, DS present) without MAPQ / mp']
 MIN_NONTRIVIAL = {'quick': 150, 'thorough': 8000}
